@@ -26,7 +26,10 @@ RULE = ("cases: random rooted trees with 2..6 nodes (all ordered trees up to 5 n
         "Hamiltonian magnitudes 1e-8..1e8, physical dimension 1, identifiers that are prefixes of each other, read-only "
         "tensors, setter / reset histories); plus 'heffval' cases: the effective-Hamiltonian functions on hand-built nodes "
         "(0..4 neighbours, every neighbour order, both link orientations, two-site arrangements) with INTEGER tensors, the "
-        "library's matrix against the Lean model's own evaluation of the proved record (exact); "
+        "library's matrix against the Lean model's own evaluation of the proved record (exact); plus 'treeval' cases: "
+        "every site (root, child of the root, deeper) of every ordered tree with 2..4 nodes, integer TTNS / TTNO, the "
+        "library's single-site effective Hamiltonian built with its own SandwichCache toward the site against the Lean "
+        "model's evaluation of the projected-Hamiltonian specification record (exact); "
         "non-trivial = distinct (tree shape, variant, seed) with at least 3 nodes or a redundant bond")
 PARTIAL = ["the local propagator itself (time_evolve) is property C20",
            "durations: proved for arbitrary segment lists (first_*/second_*/twoSite_* totals) and, with the C17 segment "
@@ -46,12 +49,20 @@ PARTIAL = ["the local propagator itself (time_evolve) is property C20",
            "well-formed contraction program with the proved record evaluates to sum_{operator legs} W * prod_n Blk_n; "
            "site_heff_is_projected_hamiltonian: with block records that are sandwich records of their components the "
            "record of H_eff is the record of (bra network without the site) * TTNO * (ket network without the site) and the "
-           "value is sum_phys' (sum_phys E*H)*conj-E, for every site - the hypothesis about the block records is discharged "
-           "from the tree model only for the ROOT site (site_heff_projected_tree_root_partial: blocks of child subtrees, "
-           "C04 soKidBlock); for a non-root site the parent-direction block is not derived from the tree model; the value-level "
+           "value is sum_phys' (sum_phys E*H)*conj-E, for every site; link_heff_is_projected_hamiltonian / "
+           "two_site_heff_is_projected_hamiltonian: the same for the link and the two-site Hamiltonian; the hypothesis "
+           "about the block records is discharged from the tree model for EVERY site of every tree "
+           "(site_heff_projected_tree with Ctx.exists_ctx: blocks of child subtrees = C04 soKidBlock, parent-direction "
+           "block = the top-down contract_any recursion, Ctx.ctx_block_is_model, whose record is the sandwich record of "
+           "the complement of the site's subtree, Ctx.block_record_is_component_sandwich) - for the link and two-site "
+           "Hamiltonians the block-record hypothesis is NOT discharged at tree level (record level only); the value-level "
            "semantics is tied to the code by the 'heffval' cases (integer tensors, the Lean model evaluates the proved "
-           "record with netValue and must reproduce the library's matrix exactly); that the program the code runs is "
-           "strongly well-formed with that record (provenance, as C04 `Built`) is not proved for the heff functions; the "
+           "record with netValue and must reproduce the library's matrix exactly) and the 'treeval' cases (every site of "
+           "every ordered tree with 2..4 nodes: library matrix with its own cache toward the site = netValue of the "
+           "specification record of site_heff_projected_tree, exactly); provenance (C04 `Built`): site_heff_built, "
+           "link_heff_built, two_site_heff_built and the unconditional site/link/two_site_heff_loop_value - the model "
+           "function's own tensordot sequence is a strongly well-formed program with the proved record and value; that "
+           "the MODEL's tensordot is NumPy's is C11 + correspondence; the "
            "leg order of the contracted two-site tensor (C02) and E^H H E on whole runs are decided by the dense oracle",
            "step / reset / step histories are decided by the oracle only"]
 ASSUMPTIONS = ["dense embedding built from algo.state by tensordot over labelled legs (harness/dense.py)",
@@ -317,6 +328,9 @@ def run(ctx):
     # value level (Ptn.C05.Heff.site_heff_value / link_heff_value / two_site_heff_value): the Lean model evaluates the
     # proved record on the library's INTEGER tensors (`netValue`) and must reproduce the library's matrix exactly
     run_heff_values(ctx)
+    # `site_heff_projected_tree` for sites at every position of the tree: library matrix (own cache toward the site) =
+    # the Lean model's evaluation of the projected-Hamiltonian specification record, exactly, on integer tensors
+    run_site_projected(ctx)
 
 
 def _int_rand_tensor(nprng, shape, complex_=True, small_int=False):
@@ -388,6 +402,129 @@ def run_heff_values(ctx):
         _case_heff_value(ctx, c, mo)
 
 
+def _case_site_projected(ctx, case):
+    """`site_heff_projected_tree` (Ptn/C05/ProjectedTreeAll.lean) against the library, for a site at ANY position of the
+    tree: on integer tensors the matrix of `get_effective_single_site_hamiltonian` with the library's own cache toward
+    the site (`SandwichCache.init_cache_but_one`: leaf-to-root blocks for the children, the top-down `contract_any`
+    recursion for the parent-direction block) must equal, exactly, the Lean model's evaluation (`C04 einrec`, i.e.
+    `Ptn.Ein.netValue`) of the SPECIFICATION record of the theorem - the physical pairs of all other nodes, the ket and
+    bra bonds not at the site and all operator bonds - over the tensors of all other nodes and the whole TTNO."""
+    import random
+    from harness import gen, einsum_corr
+    from pytreenet.contractions.sandwich_caching import SandwichCache
+    from pytreenet.contractions.effective_hamiltonians import get_effective_single_site_hamiltonian
+    par, site = list(case["par"]), case["site"]
+    n = len(par)
+    rng = random.Random(case["seed"])
+    nprng = np.random.default_rng(case["seed"])
+    saved = gen.rand_tensor
+    gen.rand_tensor = _int_rand_tensor          # dense integer entries -2..2
+    try:
+        ttns, si = gen.random_ttns(rng, nprng, par, phys=(2, 2, 1), bonds=(1, 2, 2), complex_=False)
+        phys = {i: si["open"][i][0] for i in range(n)}
+        ttno, oi = gen.random_ttno_like(rng, nprng, par, phys, bonds=(1, 2, 2), complex_=False)
+    finally:
+        gen.rand_tensor = saved
+    names = si["names"]
+    sname = names[site]
+    depth, j = 0, site
+    while par[j] >= 0:
+        depth, j = depth + 1, par[j]
+    ctx.tally("treeval_site_depth", depth)
+    ctx.tally("treeval_nodes", n)
+    try:
+        cache = SandwichCache.init_cache_but_one(ttns, ttno, sname)
+        mat = np.asarray(get_effective_single_site_hamiltonian(sname, ttns, ttno, cache))
+    except Exception as e:      # noqa: BLE001
+        ctx.oracle_fail(case, f"treeval: effective Hamiltonian of site {sname} raised {type(e).__name__}: {str(e)[:120]}")
+        return
+    num, dims, leaves = {}, [], []
+
+    def lab(key, d):
+        if key not in num:
+            num[key] = len(dims)
+            dims.append(int(d))
+        elif dims[num[key]] != int(d):
+            raise ValueError(f"leg {key} seen with dimensions {dims[num[key]]} and {d}")
+        return num[key]
+
+    pairs = []
+    try:
+        for a in names.values():
+            knode, kt = ttns[a]
+            onode, ot = ttno[a]
+            kt, ot = np.asarray(kt), np.asarray(ot)
+            knb, onb = list(knode.neighbouring_nodes()), list(onode.neighbouring_nodes())
+            ol = [lab(("o", a, b), d) for b, d in zip(onb, ot.shape)] + \
+                 [lab(("oo", a), ot.shape[-2]), lab(("oi", a), ot.shape[-1])]
+            leaves.append((ol, np.round(ot.real).astype(np.int64)))
+            if a == sname:
+                continue
+            kl = [lab(("k", a, b), d) for b, d in zip(knb, kt.shape)] + [lab(("kp", a), kt.shape[-1])]
+            bl = [lab(("b", a, b), d) for b, d in zip(knb, kt.shape)] + [lab(("bp", a), kt.shape[-1])]
+            leaves.append((kl, np.round(kt.real).astype(np.int64)))
+            leaves.append((bl, np.round(np.conj(kt).real).astype(np.int64)))
+            pairs.append((num[("kp", a)], num[("oi", a)]))
+            pairs.append((num[("oo", a)], num[("bp", a)]))
+        for c, p in enumerate(par):
+            if p < 0:
+                continue
+            a, b = names[p], names[c]
+            pairs.append((num[("o", a, b)], num[("o", b, a)]))
+            if sname not in (a, b):
+                pairs.append((num[("k", a, b)], num[("k", b, a)]))
+                pairs.append((num[("b", a, b)], num[("b", b, a)]))
+        snb = list(ttns.nodes[sname].neighbouring_nodes())
+        free = [num[("b", b, sname)] for b in snb] + [num[("oo", sname)]] + \
+               [num[("k", b, sname)] for b in snb] + [num[("oi", sname)]]
+    except (KeyError, ValueError) as e:
+        ctx.oracle_fail(case, f"treeval: the library's tensors do not fit the tree ({type(e).__name__}: {e})")
+        return
+    for x, y in pairs:
+        if dims[x] != dims[y]:
+            ctx.oracle_fail(case, f"treeval: bound legs of dimensions {dims[x]} and {dims[y]}")
+            return
+    size = 1
+    for x, _ in pairs:
+        size *= dims[x]
+    for l in free:
+        size *= dims[l]
+    if size > 140000:
+        ctx.tally("treeval", "skipped (too large)")
+        return
+    rows = int(np.prod([dims[l] for l in free[:len(snb) + 1]]))
+    if mat.shape != (rows, rows):
+        ctx.oracle_fail(case, f"treeval: H_eff of {sname} has shape {mat.shape}, the state tensor has {rows} entries")
+        return
+    line = einsum_corr.einrec_line(dims, free, pairs, leaves)
+    ans = ctx.lean.batch([line])[0]
+    tab = einsum_corr.parse_table(ans, "full")
+    ctx.tally("treeval", "root site" if depth == 0 else ("child of the root" if depth == 1 else "deeper site"))
+    ctx.count(("treeval", tuple(par), site, case["seed"]), nontrivial=depth >= 1 and n >= 3, corr=True)
+    if tab is None:
+        ctx.corr_fail(case, f"treeval: the value-level model rejects the specification record: [{ans[:120]}]")
+        return
+    got = [complex(v) for v in mat.reshape(-1)]
+    if len(tab) != len(got) or any(complex(t) != g for t, g in zip(tab, got)):
+        ctx.oracle_fail(case, f"treeval: H_eff of site {sname} (depth {depth}) {got[:6]} differs from the Lean model's "
+                              f"evaluation of the projected-Hamiltonian record on the same integer tensors {tab[:6]}")
+
+
+def run_site_projected(ctx):
+    from harness import gen
+    rng = ctx.subrng("treeval")
+    shapes = [p for k in (2, 3, 4) for p in gen.all_ordered_trees(k)]
+    cases = [{"via": "c05tree", "par": list(p), "site": s} for p in shapes for s in range(len(p))]
+    reps = ctx.n(2, 20)
+    for _ in range(reps):
+        for c in cases:
+            if ctx.time_left() < 0:
+                return
+            c = dict(c)
+            c["seed"] = rng.randrange(10 ** 9)
+            _case_site_projected(ctx, c)
+
+
 def run_case(ctx, case):
     if case.get("via") == "c05val":
         case = dict(case)
@@ -395,6 +532,8 @@ def run_case(ctx, case):
             if k in case:
                 case[k] = (case[k][0], list(case[k][1]))
         return _case_heff_value(ctx, case)
+    if case.get("via") == "c05tree":
+        return _case_site_projected(ctx, case)
     if case.get("via") == "c17":
         from harness.props import c17
         return c17.run_case(ctx, case)
